@@ -54,6 +54,19 @@ func fullStackShapes(thorough bool) []shape {
 				Src: "d := chan(1)\nfunc g() {\n" + deferred + "return [" + strings.Repeat("0, ", n) + "tick()]\n}\ng()\nfor { tick() }", Ks: ks})
 		}
 	}
+	// the same with the FRAME stack: a loop with a deferred builtin runs in the last frame the VM has, in the one
+	// before it, ... - the deferred call needs a frame of its own when the halted function is unwound
+	// (1021 is the deepest at which the loop is reached at all: one more and the evaluation fails by itself)
+	fs := []int{1019, 1020, 1021}
+	if thorough {
+		fs = []int{1012, 1013, 1014, 1015, 1016, 1017, 1018, 1019, 1020, 1021}
+	}
+	for _, n := range fs {
+		for _, deferred := range []string{"defer close(d)\n", "defer func() { tick() }()\n", ""} {
+			out = append(out, shape{Name: fmt.Sprintf("loop-at-recursion-depth-%d%s", n, map[bool]string{true: "-with-a-deferred-call", false: ""}[deferred != ""]),
+				Src: "d := chan(1)\nfunc h() {\n" + deferred + "for { tick() }\n}\nfunc rec(n) {\nif n == 0 { return h() }\nreturn rec(n - 1)\n}\nrec(" + fmt.Sprint(n) + ")", Ks: []int{14000}})
+		}
+	}
 	return out
 }
 
